@@ -1,0 +1,14 @@
+//go:build verif
+
+package cli
+
+import "io"
+
+// VerifRun runs the command in-process on the given streams. It exists only
+// with the verif build tag, for the simulation harness under /verif: Run
+// hard-wires os.Stdin, os.Stdout and os.Stderr, and the cli type is unexported.
+func VerifRun(in io.Reader, out, err io.Writer, args []string) int {
+	defer func(x bool) { addDefaultModulePaths = x }(addDefaultModulePaths)
+	addDefaultModulePaths = false
+	return (&cli{inStream: in, outStream: out, errStream: err}).run(args)
+}
